@@ -46,6 +46,7 @@ func c06(c *Ctx) {
 	// the specification sends server_time so that the client may correct its clock; it asks nothing of the client's
 	// clock.  A refusal whose condition depends on the local clock or on server_time makes the outcome of the
 	// exchange depend on the skew between two machines
+	c.exchangeWheneverNotConfirmed("R06.R")
 	r.Rule("R06.C", "no branch of makeAuthKey that leads to an error exit has the local clock (time.Now) or server_DH_inner_data.server_time among the dependencies of its condition", 1)
 	if f := c.fn("R06.C", load.RootMod, "*MTProto", "makeAuthKey"); f != nil {
 		n, bad := 0, 0
